@@ -523,6 +523,15 @@ def main(run):
                               "case: %s\nmodel: %s\nimpl : %s\n" % (ln, um[k], uc[k]), tag="un%d" % ndis,
                               no_input=not uc[k].startswith("OK"))
     if not quick:
+        # independent re-check of the compiled proofs (coqchk) incl. the list of axioms used
+        rc, out = vlib.sh(["coqchk", "-silent", "-o", "-Q", ".", "LibcoapV", "LibcoapV.Properties_C14"],
+                          cwd=vlib.COQ, timeout=2400, check=False)
+        ok = rc == 0 and re.search(r"Axioms:\s*<none>", out) is not None
+        run.cov["coqchk"] = {"ok": ok, "summary": " ".join(out.split())[-400:]}
+        if not ok:
+            run.violation("coqchk does not accept Properties_C14 or reports axioms", out[-4000:], tag="coqchk",
+                          no_input=True)
+    if not quick:
         # sanitizer variant (ASan + UBSan, libcoap itself instrumented): the exchanges and the
         # tampered deliveries of the shortest datagrams again; only crashes/reports matter here
         adrv = vlib.build_driver("h_oscore", ["h_oscore.c"], variant="asan", wraps=WRAPS)
